@@ -587,6 +587,24 @@ theorem argumentList_length {cs : List Char} {as : List LArg} {r : List Char}
       omega
     · cases h
 
+theorem asgHead_length {cs : List Char} {n : String} {r : List Char}
+    (h : asgHead cs = some (n, r)) : r.length < cs.length := by
+  simp only [asgHead] at h
+  split at h
+  · rename_i r0 hi
+    have h0 := identifier_length hi
+    split at h
+    · rename_i r1 hs
+      simp only [Option.some.injEq, Prod.mk.injEq] at h
+      obtain ⟨_, rfl⟩ := h
+      have h1 := skipWs_length r0
+      have h2 := skipWs_length r1
+      rw [hs] at h1
+      simp only [List.length_cons] at h1
+      omega
+    · cases h
+  · cases h
+
 theorem lambdaHead_length {cs : List Char} {as : List LArg} {r : List Char}
     (h : lambdaHead cs = some (as, r)) : r.length < cs.length := by
   simp only [lambdaHead] at h
@@ -730,7 +748,11 @@ theorem termR_succ (f : Nat) (cs : List Char) : termR (f + 1) cs =
        | .fail =>
          (match lamR f cs with
           | .ok x => .ok x
-          | .fail => term2R f cs
+          | .fail =>
+            (match asgR f cs with
+             | .ok x => .ok x
+             | .fail => term2R f cs
+             | .out => .out)
           | .out => .out)
        | .out => .out)
     | .out => .out := by
@@ -825,6 +847,19 @@ theorem lamR_succ (f : Nat) (cs : List Char) : lamR (f + 1) cs =
        | .out => .out)
     | none => .fail := by
   rw [lamR]; rfl
+
+theorem asgR_succ (f : Nat) (cs : List Char) : asgR (f + 1) cs =
+    match asgHead cs with
+    | some (n, r) =>
+      (match exprR false f r with
+       | .ok (its, r') =>
+         (match prattParse its with
+          | some e => .ok (.assign n e, r')
+          | none => .fail)
+       | .fail => .fail
+       | .out => .out)
+    | none => .fail := by
+  rw [asgR]; rfl
 
 theorem term2R_succ (f : Nat) (cs : List Char) : term2R (f + 1) cs =
     match termAtom cs with
@@ -1036,6 +1071,7 @@ theorem tailR_zero (lam : Bool) (cs : List Char) : tailR lam 0 cs = .out := by r
 theorem operandR_zero (lam : Bool) (cs : List Char) : operandR lam 0 cs = .out := by rw [operandR]
 theorem termR_zero (cs : List Char) : termR 0 cs = .out := by rw [termR]
 theorem lamR_zero (cs : List Char) : lamR 0 cs = .out := by rw [lamR]
+theorem asgR_zero (cs : List Char) : asgR 0 cs = .out := by rw [asgR]
 theorem condR_zero (cs : List Char) : condR 0 cs = .out := by rw [condR]
 theorem term2R_zero (cs : List Char) : term2R 0 cs = .out := by rw [term2R]
 theorem postR_zero (cs : List Char) : postR 0 cs = .out := by rw [postR]
@@ -1088,11 +1124,12 @@ structure StepAll (f : Nat) : Prop where
   d : ∀ cs, doR f cs ≠ .out → doR (f + 1) cs = doR f cs
   ds : ∀ cs, doStmtsR f cs ≠ .out → doStmtsR (f + 1) cs = doStmtsR f cs
   d1 : ∀ cs, doStmtR f cs ≠ .out → doStmtR (f + 1) cs = doStmtR f cs
+  g : ∀ cs, asgR f cs ≠ .out → asgR (f + 1) cs = asgR f cs
 
 theorem step (f : Nat) : StepAll f := by
   induction f with
   | zero =>
-    refine ⟨?_, ?_, ?_, ?_, ?_, ?_, ?_, ?_, ?_, ?_, ?_, ?_, ?_, ?_, ?_, ?_, ?_, ?_⟩
+    refine ⟨?_, ?_, ?_, ?_, ?_, ?_, ?_, ?_, ?_, ?_, ?_, ?_, ?_, ?_, ?_, ?_, ?_, ?_, ?_⟩
     · intro lam cs h; exact absurd (exprR_zero lam cs) h
     · intro lam cs h; exact absurd (tailR_zero lam cs) h
     · intro lam cs h; exact absurd (operandR_zero lam cs) h
@@ -1111,8 +1148,9 @@ theorem step (f : Nat) : StepAll f := by
     · intro cs h; exact absurd (doR_zero cs) h
     · intro cs h; exact absurd (doStmtsR_zero cs) h
     · intro cs h; exact absurd (doStmtR_zero cs) h
+    · intro cs h; exact absurd (asgR_zero cs) h
   | succ f ih =>
-    refine ⟨?_, ?_, ?_, ?_, ?_, ?_, ?_, ?_, ?_, ?_, ?_, ?_, ?_, ?_, ?_, ?_, ?_, ?_⟩
+    refine ⟨?_, ?_, ?_, ?_, ?_, ?_, ?_, ?_, ?_, ?_, ?_, ?_, ?_, ?_, ?_, ?_, ?_, ?_, ?_⟩
     · intro lam cs h
       rw [exprR_succ lam f] at h
       rw [exprR_succ lam (f + 1), exprR_succ lam f]
@@ -1164,7 +1202,14 @@ theorem step (f : Nat) : StepAll f := by
             rw [ih.l cs (by rw [h1]; exact Res.fail_ne_out), h1]
             rw [h1] at h
             simp only at h ⊢
-            exact ih.m2 cs h
+            cases hg : asgR f cs with
+            | out => rw [hg] at h; exact absurd rfl h
+            | ok x => rw [ih.g cs (by rw [hg]; exact Res.ok_ne_out), hg]
+            | fail =>
+              rw [ih.g cs (by rw [hg]; exact Res.fail_ne_out), hg]
+              rw [hg] at h
+              simp only at h ⊢
+              exact ih.m2 cs h
     · intro cs h
       rw [lamR_succ f] at h
       rw [lamR_succ (f + 1), lamR_succ f]
@@ -1372,6 +1417,16 @@ theorem step (f : Nat) : StepAll f := by
       rw [doStmtR_succ f] at h
       rw [doStmtR_succ (f + 1), doStmtR_succ f]
       step_site h1 : exprR false f cs, ih.e false, h
+    · intro cs h
+      rw [asgR_succ f] at h
+      rw [asgR_succ (f + 1), asgR_succ f]
+      cases hh : asgHead cs with
+      | none => rfl
+      | some x =>
+        obtain ⟨n, r⟩ := x
+        rw [hh] at h
+        simp only at h ⊢
+        step_site h1 : exprR false f r, ih.e false, h
 
 theorem exprR_add {lam : Bool} {f : Nat} {cs : List Char} (h : exprR lam f cs ≠ .out) (k : Nat) :
     exprR lam (f + k) cs = exprR lam f cs := by
@@ -1427,6 +1482,17 @@ theorem lamR_mono {f f' : Nat} {cs : List Char} {x} (h : f ≤ f')
     (hx : lamR f cs = .ok x) : lamR f' cs = .ok x := by
   obtain ⟨k, rfl⟩ := Nat.exists_eq_add_of_le h
   rw [lamR_add (by rw [hx]; exact Res.ok_ne_out), hx]
+
+theorem asgR_add {f : Nat} {cs : List Char} (h : asgR f cs ≠ .out) (k : Nat) :
+    asgR (f + k) cs = asgR f cs := by
+  induction k with
+  | zero => rfl
+  | succ k ih => rw [← Nat.add_assoc, (step (f + k)).g cs (by rw [ih]; exact h), ih]
+
+theorem asgR_mono {f f' : Nat} {cs : List Char} {x} (h : f ≤ f')
+    (hx : asgR f cs = .ok x) : asgR f' cs = .ok x := by
+  obtain ⟨k, rfl⟩ := Nat.exists_eq_add_of_le h
+  rw [asgR_add (by rw [hx]; exact Res.ok_ne_out), hx]
 
 theorem condR_add {f : Nat} {cs : List Char} (h : condR f cs ≠ .out) (k : Nat) :
     condR (f + k) cs = condR f cs := by
@@ -1601,11 +1667,12 @@ structure LenAll (f : Nat) : Prop where
   d : ∀ cs e r, doR f cs = .ok (e, r) → r.length < cs.length
   ds : ∀ cs ss r, doStmtsR f cs = .ok (ss, r) → r.length ≤ cs.length
   d1 : ∀ cs oe r, doStmtR f cs = .ok (oe, r) → r.length < cs.length
+  g : ∀ cs e r, asgR f cs = .ok (e, r) → r.length < cs.length
 
 theorem lengths (f : Nat) : LenAll f := by
   induction f with
   | zero =>
-    refine ⟨?_, ?_, ?_, ?_, ?_, ?_, ?_, ?_, ?_, ?_, ?_, ?_, ?_, ?_, ?_, ?_, ?_, ?_⟩
+    refine ⟨?_, ?_, ?_, ?_, ?_, ?_, ?_, ?_, ?_, ?_, ?_, ?_, ?_, ?_, ?_, ?_, ?_, ?_, ?_⟩
     · intro lam cs its r h; rw [exprR_zero] at h; cases h
     · intro lam cs its r h; rw [tailR_zero] at h; cases h
     · intro lam cs its r h; rw [operandR_zero] at h; cases h
@@ -1624,8 +1691,9 @@ theorem lengths (f : Nat) : LenAll f := by
     · intro cs its r h; rw [doR_zero] at h; cases h
     · intro cs its r h; rw [doStmtsR_zero] at h; cases h
     · intro cs its r h; rw [doStmtR_zero] at h; cases h
+    · intro cs its r h; rw [asgR_zero] at h; cases h
   | succ f ih =>
-    refine ⟨?_, ?_, ?_, ?_, ?_, ?_, ?_, ?_, ?_, ?_, ?_, ?_, ?_, ?_, ?_, ?_, ?_, ?_⟩
+    refine ⟨?_, ?_, ?_, ?_, ?_, ?_, ?_, ?_, ?_, ?_, ?_, ?_, ?_, ?_, ?_, ?_, ?_, ?_, ?_⟩
     · intro lam cs its r h
       rw [exprR_succ] at h
       len_site h1 : operandR lam f cs, h
@@ -1716,7 +1784,18 @@ theorem lengths (f : Nat) : LenAll f := by
             exact ih.l _ _ _ h1
           | fail =>
             rw [h1] at h
-            exact ih.m2 _ _ _ h
+            simp only at h
+            cases hg : asgR f cs with
+            | out => rw [hg] at h; cases h
+            | ok x =>
+              obtain ⟨e', r'⟩ := x
+              rw [hg] at h
+              simp only [Res.ok.injEq, Prod.mk.injEq] at h
+              obtain ⟨_, rfl⟩ := h
+              exact ih.g _ _ _ hg
+            | fail =>
+              rw [hg] at h
+              exact ih.m2 _ _ _ h
     · intro cs e r h
       rw [lamR_succ] at h
       split at h
@@ -2200,6 +2279,21 @@ theorem lengths (f : Nat) : LenAll f := by
           have := itemTrail_length r1
           omega
         · cases h
+    · intro cs e r h
+      rw [asgR_succ] at h
+      split at h
+      · rename_i n r0 hh
+        have h0 := asgHead_length hh
+        len_site h1 : exprR false f r0, h
+        rename_i x; obtain ⟨its, r2⟩ := x
+        simp only at h
+        split at h
+        · simp only [Res.ok.injEq, Prod.mk.injEq] at h
+          obtain ⟨_, rfl⟩ := h
+          have := ih.e _ _ _ _ h1
+          omega
+        · cases h
+      · cases h
 
 theorem exprR_length {lam f cs its r} (h : exprR lam f cs = .ok (its, r)) :
     r.length < cs.length := (lengths f).e lam cs its r h
@@ -2211,6 +2305,8 @@ theorem termR_length {f cs e r} (h : termR f cs = .ok (e, r)) :
     r.length < cs.length := (lengths f).m cs e r h
 theorem lamR_length {f cs e r} (h : lamR f cs = .ok (e, r)) :
     r.length < cs.length := (lengths f).l cs e r h
+theorem asgR_length {f cs e r} (h : asgR f cs = .ok (e, r)) :
+    r.length < cs.length := (lengths f).g cs e r h
 theorem condR_length {f cs e r} (h : condR f cs = .ok (e, r)) :
     r.length < cs.length := (lengths f).c cs e r h
 theorem term2R_length {f cs e r} (h : term2R f cs = .ok (e, r)) :
@@ -2270,13 +2366,14 @@ structure FuelAll (f : Nat) (cs : List Char) : Prop where
   d : 8 * cs.length + 2 ≤ f → doR f cs ≠ .out
   ds : 8 * cs.length + 7 ≤ f → doStmtsR f cs ≠ .out
   d1 : 8 * cs.length + 6 ≤ f → doStmtR f cs ≠ .out
+  g : 8 * cs.length + 2 ≤ f → asgR f cs ≠ .out
 
 theorem fuel_suffices (f : Nat) (cs : List Char) : FuelAll f cs := by
   induction f generalizing cs with
   | zero =>
-    refine ⟨?_, ?_, ?_, ?_, ?_, ?_, ?_, ?_, ?_, ?_, ?_, ?_, ?_, ?_, ?_, ?_, ?_, ?_⟩ <;> intros <;> omega
+    refine ⟨?_, ?_, ?_, ?_, ?_, ?_, ?_, ?_, ?_, ?_, ?_, ?_, ?_, ?_, ?_, ?_, ?_, ?_, ?_⟩ <;> intros <;> omega
   | succ f ih =>
-    refine ⟨?_, ?_, ?_, ?_, ?_, ?_, ?_, ?_, ?_, ?_, ?_, ?_, ?_, ?_, ?_, ?_, ?_, ?_⟩
+    refine ⟨?_, ?_, ?_, ?_, ?_, ?_, ?_, ?_, ?_, ?_, ?_, ?_, ?_, ?_, ?_, ?_, ?_, ?_, ?_⟩
     · intro lam hf
       rw [exprR_succ]
       fs_site h1 : operandR lam f cs, ((ih cs).o lam (by omega))
@@ -2323,7 +2420,12 @@ theorem fuel_suffices (f : Nat) (cs : List Char) : FuelAll f cs := by
           cases h1 : lamR f cs with
           | out => exact absurd h1 ((ih cs).l (by omega))
           | ok x => exact Res.ok_ne_out
-          | fail => exact (ih cs).m2 (by omega)
+          | fail =>
+            simp only
+            cases hg : asgR f cs with
+            | out => exact absurd hg ((ih cs).g (by omega))
+            | ok x => exact Res.ok_ne_out
+            | fail => exact (ih cs).m2 (by omega)
     · intro hf
       rw [lamR_succ]
       split
@@ -2606,6 +2708,16 @@ theorem fuel_suffices (f : Nat) (cs : List Char) : FuelAll f cs := by
         split
         · exact Res.ok_ne_out
         · exact Res.fail_ne_out
+    · intro hf
+      rw [asgR_succ]
+      split
+      · rename_i n r0 hh
+        have := asgHead_length hh
+        fs_site h1 : exprR false f r0, ((ih r0).e false (by omega))
+        split
+        · exact Res.ok_ne_out
+        · exact Res.fail_ne_out
+      · exact Res.fail_ne_out
 
 theorem exprR_fuel_suffices {lam : Bool} {f : Nat} {cs : List Char} {x}
     (hx : exprR lam f cs = .ok x) : ∀ f', fuelFor cs ≤ f' → exprR lam f' cs = .ok x := by
